@@ -113,23 +113,33 @@ extern "C" void h_hint_qr(void) {
     CdnsBlock* b = new_block(qh, sh, nondet_u8(), nondet_u8(), maxitems);
     GenericQueryResponse* gp = new GenericQueryResponse(); GenericQueryResponse& g = *gp;
     // member groups (HINT_GROUP): the members of the other groups are concretely absent, so that each obligation stays inside the solver budget;
-    // the hint masks are fully symbolic in every group.  1: record scalars + client address + time   2: signature members + server address
+    // the hint masks are fully symbolic in every group.  1: record scalars + client address + time   2: signature members + server address (21/22/23: a third of them each)
     // 0: everything symbolic (thorough)
 #if HINT_GROUP == 0 || HINT_GROUP == 1
 #define G1(x) x
 #else
 #define G1(x) ((void)0)
 #endif
-#if HINT_GROUP == 0 || HINT_GROUP == 2
-#define G2(x) x
+#if HINT_GROUP == 0 || HINT_GROUP == 2 || HINT_GROUP == 21
+#define G2A(x) x
 #else
-#define G2(x) ((void)0)
+#define G2A(x) ((void)0)
+#endif
+#if HINT_GROUP == 0 || HINT_GROUP == 2 || HINT_GROUP == 22
+#define G2B(x) x
+#else
+#define G2B(x) ((void)0)
+#endif
+#if HINT_GROUP == 0 || HINT_GROUP == 2 || HINT_GROUP == 23
+#define G2C(x) x
+#else
+#define G2C(x) ((void)0)
 #endif
     G1(ots(g.ts)); G1(os(g.client_ip)); G1(oi(g.client_port)); G1(oi(g.transaction_id)); G1(oi(g.client_hoplimit)); G1(oi(g.response_delay)); G1(oi(g.query_size)); G1(oi(g.response_size));
     G1(oi(g.processing_flags)); G1(oi(g.round_trip_time));
-    G2(os(g.server_ip)); G2(oi(g.server_port)); G2(oi(g.qr_transport_flags)); G2(oi(g.qr_type)); G2(oi(g.qr_sig_flags));
-    G2(oi(g.query_opcode)); G2(oi(g.qr_dns_flags)); G2(oi(g.query_rcode)); G2(oi(g.query_qdcount)); G2(oi(g.query_ancount)); G2(oi(g.query_nscount)); G2(oi(g.query_arcount)); G2(oi(g.query_edns_version));
-    G2(oi(g.query_udp_size)); G2(oi(g.response_rcode));
+    G2A(os(g.server_ip)); G2A(oi(g.server_port)); G2A(oi(g.qr_transport_flags)); G2A(oi(g.qr_type)); G2A(oi(g.qr_sig_flags));
+    G2B(oi(g.query_opcode)); G2B(oi(g.qr_dns_flags)); G2B(oi(g.query_rcode)); G2B(oi(g.query_qdcount)); G2B(oi(g.query_ancount));
+    G2C(oi(g.query_nscount)); G2C(oi(g.query_arcount)); G2C(oi(g.query_edns_version)); G2C(oi(g.query_udp_size)); G2C(oi(g.response_rcode));
     boost::optional<BlockStatistics> none;
     bool full = b->add_question_response_record(g, none);
     __verif_assert(b->m_query_responses.size() <= 1, "at most one record stored per call (C12)");
